@@ -9,7 +9,14 @@ import (
 
 	"github.com/CrowdStrike/csproto"
 	gogoproto "github.com/gogo/protobuf/proto"
+	gogodesc "github.com/gogo/protobuf/protoc-gen-gogo/descriptor"
+	gogotypes "github.com/gogo/protobuf/types"
+	golangproto "github.com/golang/protobuf/proto" //nolint
+	promv1 "github.com/prometheus/client_model/go"
 	"google.golang.org/protobuf/proto"
+	"google.golang.org/protobuf/types/descriptorpb"
+	"google.golang.org/protobuf/types/known/structpb"
+	"google.golang.org/protobuf/types/known/timestamppb"
 	"pgregory.net/rapid"
 
 	"verifsim/coop"
@@ -33,10 +40,24 @@ const (
 	opGenMarshalTo
 	opCsMarshal
 	opRtMarshal
+	opGenMarshalToPresized
 	nMarshalOps
 )
 
-var opNames = []string{"generated.Marshal", "generated.MarshalTo(make(Size()))", "csproto.Marshal", "runtime.Marshal"}
+var opNames = []string{"generated.Marshal", "generated.MarshalTo(make(Size()))", "csproto.Marshal", "runtime.Marshal", "generated.MarshalTo(buffer sized by the caller, no Size call)"}
+
+// plain types: no generated fast-marshal methods; csproto only dispatches to the owning runtime
+var plainTypes = []corpus.Type{
+	{Pkg: "plain", Name: "timestamppb.Timestamp", Runtime: "googlev2", New: func() any { return &timestamppb.Timestamp{} }},
+	{Pkg: "plain", Name: "structpb.Struct", Runtime: "googlev2", New: func() any { return &structpb.Struct{} }},
+	{Pkg: "plain", Name: "descriptorpb.DescriptorProto", Runtime: "googlev2", New: func() any { return &descriptorpb.DescriptorProto{} }},
+	{Pkg: "plain", Name: "descriptorpb.FileDescriptorProto", Runtime: "googlev2", New: func() any { return &descriptorpb.FileDescriptorProto{} }},
+	{Pkg: "plain", Name: "gogo types.Timestamp", Runtime: "gogo", New: func() any { return &gogotypes.Timestamp{} }},
+	{Pkg: "plain", Name: "gogo descriptor.DescriptorProto", Runtime: "gogo", New: func() any { return &gogodesc.DescriptorProto{} }},
+	{Pkg: "plain", Name: "prometheus.Metric", Runtime: "golang-v1", New: func() any { return &promv1.Metric{} }},
+}
+
+func isFast(m any) bool { _, ok := m.(corpus.FM); return ok }
 
 type result struct {
 	b     []byte
@@ -50,15 +71,24 @@ func rtMarshal(m any) ([]byte, error) {
 	if corpus.IsGogo(m) {
 		return gogoproto.Marshal(m.(gogoproto.Message))
 	}
-	return proto.MarshalOptions{AllowPartial: false}.Marshal(m.(proto.Message))
+	if pm, ok := m.(proto.Message); ok {
+		return proto.MarshalOptions{AllowPartial: false}.Marshal(pm)
+	}
+	return golangproto.Marshal(m.(golangproto.Message))
 }
 
 func rtSize(m any) int {
 	if corpus.IsGogo(m) {
 		return gogoproto.Size(m.(gogoproto.Message))
 	}
-	return proto.Size(m.(proto.Message))
+	if pm, ok := m.(proto.Message); ok {
+		return proto.Size(pm)
+	}
+	return golangproto.Size(m.(golangproto.Message))
 }
+
+// presize is the buffer size used by opGenMarshalToPresized (set by the caller from a fresh copy).
+var presize int
 
 func doMarshal(op int, m any) (r result) {
 	defer func() {
@@ -69,12 +99,21 @@ func doMarshal(op int, m any) (r result) {
 			r.panic, r.stack = p, debug.Stack()
 		}
 	}()
-	fm := m.(corpus.FM)
+	fm, fast := m.(corpus.FM)
+	if !fast && (op == opGenMarshal || op == opGenMarshalTo || op == opGenMarshalToPresized) {
+		op = opCsMarshal // plain types have no generated methods
+	}
 	switch op {
 	case opGenMarshal:
 		r.b, r.err = fm.Marshal()
 	case opGenMarshalTo:
 		n := fm.Size()
+		buf := make([]byte, n)
+		r.err = fm.MarshalTo(buf)
+		r.b = buf
+	case opGenMarshalToPresized:
+		// the caller knows the size already (here: from a fresh copy) and does not call Size on this object
+		n := presize
 		buf := make([]byte, n)
 		r.err = fm.MarshalTo(buf)
 		r.b = buf
@@ -121,6 +160,9 @@ func (h *hist) opSize(t *rapid.T) {
 	k := rapid.IntRange(0, 2).Draw(t, "sizer")
 	h.unjudged("size", func() {
 		var n int
+		if k == 0 && !isFast(h.m) {
+			k = 1
+		}
 		switch k {
 		case 0:
 			n = h.m.(corpus.FM).Size()
@@ -138,6 +180,18 @@ func (h *hist) opMarshal(t *rapid.T) {
 	cache0, _ := corpus.SizeCache(h.m)
 	stale := corpus.StaleCaches(h.m)
 	fresh := corpus.FreshCopy(h.m)
+	if op == opGenMarshalToPresized {
+		presize = -1
+		if f2, ok := corpus.FreshCopy(h.m).(corpus.FM); ok {
+			func() {
+				defer func() { _ = recover() }()
+				presize = f2.Size()
+			}()
+		}
+		if presize < 0 {
+			op = opGenMarshal
+		}
+	}
 	got := doMarshal(op, h.m)
 	want := doMarshal(op, fresh)
 	h.judged++
@@ -195,7 +249,7 @@ func (h *hist) opUnmarshal(t *rapid.T) {
 	via := rapid.IntRange(0, 1).Draw(t, "unmvia")
 	h.unjudged("unmarshal", func() {
 		var err error
-		if via == 0 {
+		if via == 0 && isFast(h.m) {
 			err = h.m.(corpus.FM).Unmarshal(b)
 		} else {
 			err = csproto.Unmarshal(b, h.m)
@@ -224,6 +278,9 @@ func (h *hist) opClone(t *rapid.T) {
 }
 
 func pickType(t *rapid.T) corpus.Type {
+	if rapid.IntRange(0, 4).Draw(t, "plaintype") == 0 {
+		return plainTypes[rapid.IntRange(0, len(plainTypes)-1).Draw(t, "plain")]
+	}
 	return corpus.All[rapid.IntRange(0, len(corpus.All)-1).Draw(t, "type")]
 }
 
@@ -318,13 +375,21 @@ func runCoop(t *rapid.T, w *rep.Worker, maxClients int) {
 	var wantSize [nAllOps]int
 	func() {
 		defer func() { _ = recover() }()
-		wantSize[opGenSize] = corpus.FreshCopy(m).(corpus.FM).Size()
+		if isFast(m) {
+			wantSize[opGenSize] = corpus.FreshCopy(m).(corpus.FM).Size()
+		} else {
+			wantSize[opGenSize] = csproto.Size(corpus.FreshCopy(m))
+		}
 		wantSize[opCsSize] = csproto.Size(corpus.FreshCopy(m))
 		wantSize[opRtSize] = rtSize(corpus.FreshCopy(m))
 	}()
 	switch warm {
 	case 1:
-		_ = m.(corpus.FM).Size()
+		if isFast(m) {
+			_ = m.(corpus.FM).Size()
+		} else {
+			_ = csproto.Size(m)
+		}
 	case 2:
 		_ = rtSize(m)
 	}
@@ -348,7 +413,11 @@ func runCoop(t *rapid.T, w *rep.Worker, maxClients int) {
 				}()
 				switch op {
 				case opGenSize:
-					o.n = m.(corpus.FM).Size()
+					if isFast(m) {
+						o.n = m.(corpus.FM).Size()
+					} else {
+						o.n = csproto.Size(m)
+					}
 				case opCsSize:
 					o.n = csproto.Size(m)
 				case opRtSize:
